@@ -336,6 +336,34 @@ func oracle(p *progSpec, o *obsT, res *okT, er *errT) []hk.Failure {
 			}
 		}
 	}
+	// targets across attempts: the library decodes into the caller's object in every attempt whose
+	// binding step applies - nothing resets it in between (Go's Unmarshal merges), so what the
+	// target holds at the end is the sequential decode of those bodies
+	if p.TResult && !o.Panic && !p.UmCustom && !p.Transformer && !p.Save && dm == nil && p.ReqErr == 0 && o.Iters > 0 {
+		plain := true
+		ref := &okT{}
+		for a := 0; a <= la && a < len(p.Attempts); a++ {
+			sp := p.Attempts[a]
+			for _, w := range sp.Wraps {
+				if w.Kind != "pass" {
+					plain = false
+				}
+			}
+			if d, _ := digestOf(sp); d != nil || sp.Ctx != "" {
+				plain = false
+			}
+			if !has(o.Log, a, "send", 0) || sp.T.Fail != 0 {
+				continue
+			}
+			if docState(p, sp.T.Status) == 0 && sp.T.Status != 204 && sp.T.B.ReadErr == 0 {
+				refUnmarshal(sp.T.B, ref)
+			}
+		}
+		if plain && *ref != *res {
+			fail("target-merge", "the success target does not hold the sequential decode of the bodies of all attempts that were bound", *res, *ref)
+		}
+	}
+
 	// C5
 	if o.Result && o.ErrorB != "none" {
 		fail("result-binding:both", "both the success and the error result are populated", nil, nil)
